@@ -274,25 +274,27 @@ def registry(ni: int, pretty: bool, register_mine: bool) -> bool:
 
 # --------------------------------------------------------------------------- concretised cross-check
 LEAVES = (None, True, False, 0, 1, -5, 2 ** 40, 1.5, -0.0, 1e100, float("inf"), float("nan"), "", "1", "true",
-          "null", " x ", "a<b>&\"'", "ünï", "a\nb")
+          "null", " x ", "a<b>&\"'", "ünï", "a\nb",
+          # line structure: empty / blank interior lines, only line breaks, a trailing break, Unicode line separators
+          "a\n\nb", "\n\n", "a\n   \nb", "tail\n", "x\u2028y", "x\u0085y")
 REAL = ("json", "yaml", "bson", "xml", "pickle")
 
 
 def _mk_real(fmt: str):
-    @obligation(prop="C04", name="real_codec_" + fmt, group="real_codecs", sites=("rt",), budget={"quick": 240, "thorough": 600},
+    @obligation(prop="C04", name="real_codec_" + fmt, group="real_codecs", sites=("rt",), budget={"quick": 480, "thorough": 900},
                 encodes=["cincoconfig.core.ConfigFormat.get"],
                 examples=({"li": 3, "lj": 12, "shape": 6, "opt": False},),
-                what="concretised cross-check through the real %s codec: trees built from 20 menu leaves (None, "
+                what="concretised cross-check through the real %s codec: trees built from 26 menu leaves (None, "
                      "booleans, ints incl. 2**40, floats incl. -0.0/inf/nan, strings that look like other types, need "
-                     "escaping, carry blanks or a line break, non-ASCII) in 9 container shapes, with and without "
+                     "escaping, carry blanks, line breaks, blank interior lines or Unicode line separators, non-ASCII) in 9 container shapes, with and without "
                      "the format's option: decode(encode(t)) equals t with types preserved at every node" % fmt)
     def ob(li: int, lj: int, shape: int, opt: bool) -> bool:
         """
-        pre: 0 <= li < 20 and 0 <= lj < 20 and 0 <= shape <= 8
+        pre: 0 <= li < 26 and 0 <= lj < 20 and 0 <= shape <= 8
         post: _
         """
         l1 = l2 = None
-        for n in range(20):
+        for n in range(26):
             if li == n:
                 l1 = LEAVES[n]
             if lj == n:
